@@ -285,6 +285,23 @@ func kParse(r *vh.Run) {
 				continue
 			}
 			for _, level := range []int{0, 1, eff} {
+				// the guard's own statement on the implementation: containers at levels level..level+k-1,
+				// the leaf at level+k; accepted iff level+k <= effective limit, else the depth error
+				for _, c := range []struct {
+					s string
+					k int
+				}{{nest("[", "]", n, "1"), n}, {nest("<</A ", ">>", n, "1"), n}, {nest("[<</A ", ">>]", n, "(x)"), 2 * n}} {
+					got, _ := parseImpl(c.s, level, maxd)
+					want := "ok:0"
+					if level+c.k > eff {
+						want = "err:depth"
+					}
+					if got != want {
+						r.OracleFail("parse-depth-guard", map[string]any{"hex": vh.Hex([]byte(c.s)), "level": level, "max": maxd}, "got "+got+", want "+want)
+					} else {
+						r.OracleOK()
+					}
+				}
 				emit(nest("[", "]", n, "1"), level, maxd)
 				emit(nest("<</A", ">>", n, "1"), level, maxd)
 				emit(nest("[<</A", ">>]", n, "(x)"), level, maxd)
